@@ -86,9 +86,13 @@ impl OperationControl for Repeat {
         let mut positions = Vec::new();
         // (the required iterations may all be empty, so the limit derived from
         // the remaining input must not cut into the minimum)
-        let bound = self
-            .max
-            .min((matcher.search.len() - position + 1).max(self.min));
+        let remaining = matcher.search.len() - position;
+        // At most `remaining` iterations consume input and an empty iteration
+        // adds nothing when repeated at the same position, so a sequence of
+        // more than 2 * remaining + 1 iterations exists exactly when one of
+        // that length does: a larger minimum asks for nothing more.
+        let min = self.min.min(remaining.saturating_mul(2).saturating_add(1));
+        let bound = self.max.min((remaining + 1).max(min));
         let mut p = position;
         if self.greedy {
             // Prime the arrays first with iterators up to the maximum length,
@@ -133,7 +137,7 @@ impl OperationControl for Repeat {
                     positions,
                     // the entry for zero occurrences is not an iteration
                     if registered.is_some() { bound + 1 } else { bound },
-                    self.min,
+                    min,
                     registered,
                 ),
             )))
@@ -144,7 +148,7 @@ impl OperationControl for Repeat {
                     matcher,
                     self.operation.as_ref(),
                     position,
-                    self.min,
+                    min,
                     self.max,
                 ),
             )))
